@@ -228,6 +228,15 @@ def bounded(ctx):
             if want[0] != got[0]:
                 viol.append(dict(name="same_object_twice", what="vector %s with the same module object %s passed twice: expected %r, got %r" % (vk, ty, want, got),
                                  case=dict(vector=vk, module=ty)))
+            # ... but two *objects* wrapping the same plasmid text are two supplied modules sharing a start overhang
+            evals += 1
+            twin = type(m)(type(m.record)(m.record.seq, id=m.record.id + "-copy", name=m.record.name))
+            want2 = ba.spec_outcome([(ALPHABET[ty[0]], ALPHABET[ty[1]], "k1"), (ALPHABET[ty[0]], ALPHABET[ty[1]], "k2")],
+                                    ALPHABET[vk[0]], ALPHABET[vk[1]])
+            got2, prod2, w2 = ba.run_assembly(vec, [m, twin])
+            if want2[0] != got2[0]:
+                viol.append(dict(name="same_plasmid_two_objects", what="vector %s with two module objects wrapping the same plasmid %s: expected %r, got %r" % (
+                    vk, ty, want2[:1], got2[:2]), case=dict(vector=vk, module=ty)))
     uniq = {}
     for v in viol:
         uniq.setdefault(v["name"], v)
